@@ -203,13 +203,26 @@ def r3(ctx, chk):
     ok = False
     for n in iter_own_nodes(init.node):
         if isinstance(n, ast.Assign) and ast.unparse(n.targets[0]) == "self.ordered_num_directives":
-            rc = [c for c in ast.walk(n.value) if isinstance(c, ast.Call) and ast.unparse(c.func) == "resolve_date_order"]
-            lk = [c for c in ast.walk(n.value) if isinstance(c, ast.Subscript) and ast.unparse(c.value) == "self.num_directives"]
+            scan, ordered = [n.value], "OrderedDict" in ast.unparse(n.value) or isinstance(n.value, (ast.Dict, ast.DictComp))
+            if isinstance(n.value, ast.Name):
+                # the table is filled under a local name: d = OrderedDict() / {}; for k in <order>: d[k] = self.num_directives[k]
+                v_ = n.value.id
+                inits = [m for m in iter_own_nodes(init.node) if isinstance(m, ast.Assign) and len(m.targets) == 1 and isinstance(m.targets[0], ast.Name)
+                         and m.targets[0].id == v_]
+                fills = [m for m in iter_own_nodes(init.node) if isinstance(m, ast.For) and any(
+                    isinstance(x, ast.Assign) and isinstance(x.targets[0], ast.Subscript) and ast.unparse(x.targets[0].value) == v_
+                    and isinstance(m.target, ast.Name) and ast.unparse(x.targets[0].slice) == m.target.id for x in ast.walk(m))]
+                if len(inits) != 1 or len(fills) != 1:
+                    raise AnalysisError(rule, "_parser.__init__: cannot follow how `%s` (stored as ordered_num_directives) is filled" % v_)
+                ordered = ast.unparse(inits[0].value) in ("OrderedDict()", "{}", "dict()", "collections.OrderedDict()")
+                scan = [fills[0]]
+            rc = [c for e_ in scan for c in ast.walk(e_) if isinstance(c, ast.Call) and ast.unparse(c.func) == "resolve_date_order"]
+            lk = [c for e_ in scan for c in ast.walk(e_) if isinstance(c, ast.Subscript) and ast.unparse(c.value) == "self.num_directives"]
             for c in rc:
                 lst = [k.value for k in c.keywords if k.arg == "lst"] + c.args[1:2]
                 if c.args and isinstance(c.args[0], ast.Attribute) and c.args[0].attr == "DATE_ORDER" and lst \
                         and isinstance(lst[0], ast.Constant) and lst[0].value is True and lk:
-                    ok = "OrderedDict" in ast.unparse(n.value) or isinstance(n.value, (ast.Dict, ast.DictComp))
+                    ok = ordered
     chk.ob(rule, "ordered_num_directives is num_directives in the order of resolve_date_order(settings.DATE_ORDER, lst=True)", ok,
            "the numeric directives are no longer ordered by the DATE_ORDER setting",
            key={"function": init.key, "construct": "ordered_num_directives"}, file=init.file, function=init.qual, line=init.node.lineno)
